@@ -192,7 +192,9 @@ func func_Invert(rtParams FunctionParameterTypes, val any) (any, error) {
 	case bool:
 		return !t, nil
 	case *bool:
-		return !(*t), nil
+		if t != nil {
+			return !(*t), nil
+		}
 	}
 
 	return false, fmt.Errorf("input was not boolean")
